@@ -1,2 +1,173 @@
-(** placeholder until the C01 theorems are in place *)
-From Texel Require Import Prelude.Base.
+(** * C01 — snapping never introduces crossing edges.
+
+    STATUS.  The full statement
+      forall valid P inside the grid, forall requested level, no two edges of the returned rings cross properly
+    is FALSE of the faithful model and of the implementation (finding F5: kmpDeduplicate invents an edge on
+    chains that visit a pixel centre four times or more): [C01_refuted] below, witness replayed on the real
+    code.  What is proved here:
+    - the oracles the search uses are exact / sound: [C01_cross_oracle_exact], [C01_cross_parametric],
+      [C01_touch_oracle_complete], [C01_adjacent_oracle_sound], [C01_validity_oracle_sound];
+    - the geometric core of snap rounding for ROUTED edges (the edges C02 produces):
+      [C01_partial_routed_edge_close] and [C01_partial_sweep_lemma] / [C01_partial_sweep_pixels].
+    NOT proved: the global implication "valid input and every output edge is a routed edge => no proper
+    crossing" (the Guibas-Marimont deformation argument: move every point towards the centre of its pixel
+    and show that no vertex ever passes through an edge; the sweep lemma is its algebraic step, the
+    topological continuity / planarity part is missing).  Everything named [C01_partial_*] is a step of
+    that argument, not the property.
+
+    Vocabulary (Geom/*.v, Snap/ProofsGeomTie*.v).  Points are integer pairs (units of 1e-10).
+    - [orient3 a b c]: twice the signed area of the triangle (Snap.Model's [orient] is the winding of a ring);
+    - [proper_cross a b c d]: c, d strictly on opposite sides of line ab and a, b strictly on opposite sides of
+      line cd (touching and collinear overlap are not proper crossings); [cross_b] its boolean;
+    - [edges ps]: the undirected edges of all rings of the polygons returned for one level, rings taken
+      cyclically, a 2-vertex ring giving one edge and a 1-vertex ring none; [edge_cross(_b) e f] on edges;
+    - [SegsShare a b c d]: the closed segments have a common point (rational parameters in [0,1]);
+    - [valid_polygon P]: see Geom/Polygon.v; [valid_polygon_b] its executable version;
+    - [co from to t] = from + t (to - from);  [segPt a b t] the point of segment ab with parameter t;
+    - [between c1 c2 lam] = (1 - lam) c1 + lam c2;  [ChebLe H p q]: Chebyshev distance at most H;
+    - [halfSpan g L] = half the pixel size of level L;  [ExactMiddle g L]: L above the deepest level or even
+      resolution, so that centroids are exact middles (otherwise half a unit is lost, C03). *)
+From Coq Require Import ZArith QArith List Bool.
+From Texel Require Import Prelude.Base Index.Model Index.ProofsInsert Index.ProofsLine Index.ProofsRouting
+  Snap.Model Geom.Cross Geom.Touch Geom.Polygon Geom.Close Snap.ProofsGeomTieRoute Snap.ProofsGeomTieRefute.
+Import ListNotations.
+Open Scope Z_scope.
+
+(** ** oracles *)
+Theorem C01_cross_oracle_exact : forall a b c d, cross_b a b c d = true <-> proper_cross a b c d.
+Proof. exact cross_b_spec. Qed.
+Print Assumptions C01_cross_oracle_exact.
+
+(** a proper crossing is exactly: the segments are not parallel and have a common point strictly inside both *)
+Theorem C01_cross_parametric : forall a b c d,
+  proper_cross a b c d <->
+  cross2 a b c d <> 0 /\
+  exists s t : Q, (0 < s /\ s < 1 /\ 0 < t /\ t < 1 /\
+    co (fst a) (fst b) s == co (fst c) (fst d) t /\ co (snd a) (snd b) s == co (snd c) (snd d) t)%Q.
+Proof. exact proper_cross_iff_param. Qed.
+Print Assumptions C01_cross_parametric.
+
+(** the "segments touch" test never misses a common point *)
+Theorem C01_touch_oracle_complete : forall a b c d, SegsShare a b c d -> segs_touch_b a b c d = true.
+Proof. exact segs_share_touch. Qed.
+Print Assumptions C01_touch_oracle_complete.
+
+(** two consecutive edges that pass the test have only their common vertex in common *)
+Theorem C01_adjacent_oracle_sound : forall a b c, adj_ok_b a b c = true ->
+  forall s t : Q, (0 <= s -> s <= 1 -> 0 <= t -> t <= 1 ->
+    co (fst a) (fst b) s == co (fst b) (fst c) t -> co (snd a) (snd b) s == co (snd b) (snd c) t ->
+    s == 1 /\ t == 0)%Q.
+Proof. exact adj_ok_sound. Qed.
+Print Assumptions C01_adjacent_oracle_sound.
+
+Theorem C01_validity_oracle_sound : forall P, valid_polygon_b P = true -> valid_polygon P.
+Proof. exact valid_polygon_b_sound. Qed.
+Print Assumptions C01_validity_oracle_sound.
+
+(** ** geometry of routed edges (steps of the argument, not the property) *)
+
+(** every point between the centroids of two pixels met by the closed segment a b is within half a pixel
+    (Chebyshev) of a point of a b *)
+Theorem C01_partial_routed_edge_close : forall g L a b q1 q2 lam, ExactMiddle g L ->
+  Meets a b (pixExt g L q1) -> Meets a b (pixExt g L q2) -> (0 <= lam -> lam <= 1 ->
+  exists t, 0 <= t /\ t <= 1 /\
+    ChebLe (halfSpan g L) (between (pixCen g L q1) (pixCen g L q2) lam) (segPt a b t))%Q.
+Proof. exact routed_edge_close. Qed.
+Print Assumptions C01_partial_routed_edge_close.
+
+(** without exact middles: half a unit (0.5e-10) more *)
+Theorem C01_partial_routed_edge_close_general : forall g L a b q1 q2 lam,
+  Meets a b (pixExt g L q1) -> Meets a b (pixExt g L q2) -> (0 <= lam -> lam <= 1 ->
+  exists t, 0 <= t /\ t <= 1 /\
+    ChebLe (halfSpan g L + (1 # 2)) (between (pixCen g L q1) (pixCen g L q2) lam) (segPt a b t))%Q.
+Proof. exact routed_edge_close_general. Qed.
+Print Assumptions C01_partial_routed_edge_close_general.
+
+(** the sweep lemma over Q: squares of half-size h; a' in the square of c1, b' in the square of c2, v in the
+    square of d; all points move the fraction lam of the way to their centres; if the moved v lies on the moved
+    edge at parameter mu, the point mu between a' and b' lies in the square of d *)
+Theorem C01_partial_sweep_lemma : forall (h lam mu : Q) (a' b' c1 c2 v d : Q * Q),
+  (0 <= lam)%Q -> (lam <= 1)%Q -> (0 <= mu)%Q -> (mu <= 1)%Q ->
+  InSq h c1 a' -> InSq h c2 b' -> InSq h d v ->
+  peq (mix lam v d) (mix mu (mix lam a' c1) (mix lam b' c2)) ->
+  InSq h d (mix mu a' b').
+Proof. exact sweep_lemma. Qed.
+Print Assumptions C01_partial_sweep_lemma.
+
+(** on pixels: the source segment is in pixel q1 at parameter ta and in q2 at tb; v a point of the hot pixel qd;
+    if the moved v lies on the moved edge at parameter mu then the source segment is in qd at the parameter mu of
+    the way from ta to tb (hence between them) *)
+Theorem C01_partial_sweep_pixels : forall g L a b q1 q2 qd (ta tb lam mu : Q) (v : Q * Q), ExactMiddle g L ->
+  (0 <= lam)%Q -> (lam <= 1)%Q -> (0 <= mu)%Q -> (mu <= 1)%Q ->
+  PIn a b ta (pixExt g L q1) -> PIn a b tb (pixExt g L q2) ->
+  let cen q := (inject_Z (fst (pixCen g L q)), inject_Z (snd (pixCen g L q))) in
+  InSq (halfSpan g L) (cen qd) v ->
+  peq (mix lam v (cen qd)) (mix mu (mix lam (segPt a b ta) (cen q1)) (mix lam (segPt a b tb) (cen q2))) ->
+  PIn a b ((1 - mu) * ta + mu * tb)%Q (pixExt g L qd).
+Proof. exact sweep_pixels. Qed.
+Print Assumptions C01_partial_sweep_pixels.
+
+(** ** the refutation (F5) *)
+
+(** boolean form: grid 64 x 64 px of 0.5 (deepest level 6), levels [5; 6], all flags off; the polygon [PC01]
+    (12-vertex shell, 5-vertex hole) is valid and inside the grid; the result for level 5 is the single ring
+    (48.5,52.5) (49.5,54.5) (49.5,53.5) (48.5,53.5) whose first and third edges cross at (49, 53.5) *)
+Theorem C01_refuted :
+  exists g P levels cfg r L ps e f,
+    valid_polygon_b P = true /\ Forall (insideGrid g) (concat P) /\
+    snapPolygon g P levels cfg = Ok r /\ In (L, ps) r /\
+    In e (edges ps) /\ In f (edges ps) /\ edge_cross_b e f = true.
+Proof. exact cross_witness. Qed.
+Print Assumptions C01_refuted.
+
+(** hence the implication "valid input => no proper crossing" is false of the model *)
+Theorem C01_refuted_implication :
+  ~ (forall g P levels cfg r L ps, 0 < gres g -> valid_polygon P -> Forall (insideGrid g) (concat P) ->
+       snapPolygon g P levels cfg = Ok r -> In (L, ps) r ->
+       forall e f, In e (edges ps) -> In f (edges ps) -> ~ edge_cross e f).
+Proof. exact no_cross_refuted. Qed.
+Print Assumptions C01_refuted_implication.
+
+(** ** non-vacuity *)
+
+(** the concrete witness *)
+Example C01_witness :
+  valid_polygon_b PC01 = true /\
+  (exists r6, snapPolygon gC01 PC01 [5%nat; 6%nat] cfg0 = Ok [(5%nat, [[ringC01]]); (6%nat, r6)]) /\
+  edges [[ringC01]] =
+    [((485000000000, 525000000000), (495000000000, 545000000000));
+     ((495000000000, 545000000000), (495000000000, 535000000000));
+     ((495000000000, 535000000000), (485000000000, 535000000000));
+     ((485000000000, 535000000000), (485000000000, 525000000000))] /\
+  edge_cross_b eC01 fC01 = true.
+Proof.
+  split; [exact C01_witness_valid |]. split; [exact C01_witness_result |]. split; vm_compute; reflexivity.
+Qed.
+
+(** the oracles distinguish crossing from touching, and reject a bow-tie *)
+Example C01_oracle_examples :
+  cross_b (0, 0) (4, 4) (0, 4) (4, 0) = true /\          (* X *)
+  cross_b (0, 0) (4, 4) (2, 2) (4, 0) = false /\         (* T: touching *)
+  cross_b (0, 0) (4, 4) (2, 2) (6, 6) = false /\         (* collinear overlap *)
+  segs_touch_b (0, 0) (4, 4) (2, 2) (4, 0) = true /\
+  segs_touch_b (0, 0) (4, 4) (5, 5) (6, 6) = false /\
+  valid_polygon_b [[(0, 0); (4, 0); (4, 4); (0, 4)]; [(1, 1); (1, 2); (2, 2); (2, 1)]] = true /\
+  valid_polygon_b [[(0, 0); (4, 4); (4, 0); (0, 4)]] = false /\                            (* bow-tie *)
+  valid_polygon_b [[(0, 0); (4, 0); (4, 4); (0, 4)]; [(3, 3); (3, 5); (5, 5); (5, 3)]] = false /\  (* hole pokes out *)
+  valid_polygon_b [[(0, 0); (4, 0); (2, 0)]] = false /\                                    (* zero area *)
+  edges [[[(0, 0); (4, 0); (4, 4)]]; [[(0, 0); (1, 1)]; [(5, 5)]]] =
+    [((0, 0), (4, 0)); ((4, 0), (4, 4)); ((4, 4), (0, 0)); ((0, 0), (1, 1))].
+Proof. vm_compute. repeat split; reflexivity. Qed.
+
+(** the hypotheses of routed_edge_close hold on the C02 example (grid 16 x 16 px of 1.0, level 4, edge
+    (7, 5.5) -> (5, 6.5), pixels (7,5) and (6,6)) *)
+Example C01_routed_edge_close_example :
+  let g := mkGrid (mkExtent 0 0 160000000000 160000000000) 10000000000 4 in
+  let a := (70000000000, 55000000000) in let b := (50000000000, 65000000000) in
+  ExactMiddle g 4 /\ Meets a b (pixExt g 4 (7, 5)) /\ Meets a b (pixExt g 4 (6, 6)) /\
+  (halfSpan g 4 == 5000000000 # 1)%Q.
+Proof.
+  cbv zeta. split; [right; reflexivity |].
+  split; [apply lineIntersects_spec; vm_compute; reflexivity |].
+  split; [apply lineIntersects_spec; vm_compute; reflexivity | vm_compute; reflexivity].
+Qed.
